@@ -210,6 +210,19 @@ pub fn catalogue(tier: Tier) -> Vec<(String, Option<bool>, String)> {
             "include cycle of length 3".into(),
         ));
     }
+    // non-ASCII characters inside case-insensitive literals in every escape spelling (\xE9, \u00E9, \u{e9}, ...)
+    for ch in ['\u{80}', 'é', '\u{ff}', '\u{100}', '€', '😀'] {
+        for sp in refpeg::corpus::e1::spellings_for(ch) {
+            for dq in [false, true] {
+                let l = LitChar { c: ch, sp: sp.clone() };
+                for chars in [vec![l.clone()], vec![LitChar::canon('a'), l.clone()], vec![l.clone(), LitChar::canon('z')], vec![LitChar::canon('a'), l.clone(), LitChar::canon('z')]] {
+                    let e = Expr::Lit { chars, insensitive: true, dq };
+                    out.push((root(vec![Directive::Export], e.clone(), vec![]), Some(true), "non-ASCII case-insensitive literal written with an escape".into()));
+                    out.push((root(vec![Directive::Export], seq(vec![lit("b"), opt(e)]), vec![]), Some(true), "non-ASCII case-insensitive literal written with an escape".into()));
+                }
+            }
+        }
+    }
     // include cycles reached from a rule that is not itself on the cycle, in both file orders
     for (a, bb) in [("S = > A ;\nA = > B ;\nB = > A ;", "tail into a cycle of length 2"), ("S = > A ;\nA = 'a' [ > A ] ;", "tail into a self-include"),
         ("A = 'a' [ > A ] ;\nS = > A ;", "tail into a self-include, cycle first"), ("@export S = 'x' { > P } ;\nP = 'p' > Q ;\nQ = 'q' | > R ;\nR = > P ;", "tail into a cycle of length 3")] {
